@@ -50,6 +50,15 @@ def make_req(na, rd, rer, san="equal", files="both", draws=64):
     op = {"op": "install_pair", "ca": 0, "cert_path": cp, "key_path": kp, "key_type": "ecdsa-p256", "dns": cert_dns, "ip": cert_ip,
           "not_after_off": off, "not_before_off": min(-3600, off - DAY), "chain_len": 1}
     pre = [op]
+    if files in ("symlinked", "cert-symlinked", "key-symlinked"):
+        # the configured paths are symbolic links to regular files kept elsewhere: the files exist
+        if files != "key-symlinked":
+            op["cert_path"] = "real/cert.pem"
+            pre.append({"op": "symlink", "path": cp, "target": "real/cert.pem"})
+        if files != "cert-symlinked":
+            op["key_path"] = "real/key.pem"
+            pre.append({"op": "symlink", "path": kp, "target": "real/key.pem"})
+        pre.insert(1, {"op": "mkdir", "path": "certs"})
     if files == "cert-missing":
         op["no_cert"] = True
     elif files == "key-missing":
@@ -114,7 +123,7 @@ def run(ctx):
     res = Result("exploration")
     res.rule = ("full grid: 12 notAfter values (10 years ago .. 9999-12-31) x 6 renew_delay x 5 random_early_renew on a covering certificate; 12 SAN relations "
                 "(equal, permuted, superset, one missing, wildcard vs base both ways, IDN, IPv4, IPv6 spelled differently, IP missing) x 6 time settings; "
-                "file states {certificate missing, key missing, certificate unparsable}; each evaluated through MainEventLoop::new + the real "
+                "file states {certificate missing, key missing, certificate unparsable, certificate and/or key reached through a symbolic link}; each evaluated through MainEventLoop::new + the real "
                 "schedule_renewal, 64 draws each (the jitter is thread_rng's: the oracle is an interval). A freshly issued 90-day certificate must not be due. After an attempt (every single hook failure / reduced CA fault at every position of a renewal), "
                 "the same process must compute the date from what is on disk at that moment.")
     reqs = []
@@ -130,6 +139,10 @@ def run(ctx):
         for na in (NOT_AFTER[1], NOT_AFTER[8]):
             for rd in (RENEW_DELAY[0], RENEW_DELAY[3], RENEW_DELAY[5]):
                 reqs.append(make_req(na, rd, EARLY[2], files=files, draws=4))
+    for files in ("symlinked", "cert-symlinked", "key-symlinked"):
+        for na in (NOT_AFTER[1], NOT_AFTER[5], NOT_AFTER[8]):
+            for rd in (RENEW_DELAY[0], RENEW_DELAY[3]):
+                reqs.append(make_req(na, rd, EARLY[0], files=files, draws=4))
     if not ctx.quick:
         # a day-by-day sweep around the renewal instant and the expiry, and year steps up to the far future
         for days in list(range(-3, 100)) + [365 * y for y in (2, 5, 10, 30, 60, 67, 68, 69, 70, 100, 500, 2000, 7000)]:
